@@ -11,7 +11,8 @@ def _make(rng, tif, convertible=False, scale=1):
     for _ in range(50):
         lay = glis.random_layout(rng, allow_be=False)
         lay = glis.Layout(lay.pr_len, lay.rec_num, lay.file_num, lay.checksum, tif)
-        data, fm = glis.random_file(rng, allow_be=False, two_files_p=0.2 if scale == 1 else 0.9, layout=lay)
+        data, fm = glis.random_file(rng, allow_be=False, two_files_p=0.2 if scale == 1 else 0.9, layout=lay,
+                                    concurrent_p=0.0 if convertible else 0.15)   # normal + alternate data in one logical file
         # the property excludes TIF-marked files whose first physical record is exactly 276 bytes (they share the BIT signature)
         if tif and fm.prs and fm.prs[0]['end'] - fm.prs[0]['start'] - 12 == 276:
             continue
